@@ -61,7 +61,7 @@ fn main() {
                 let mut cfg = cfgs[i % cfgs.len()].clone();
                 let s = seed.wrapping_mul(1_000_003).wrapping_add(i as u64);
                 cfg.name = format!("rnd-{seed}-{i}");
-                let dir = Box::new(rnd::RandomDirector::new(s, profile.clone(), cfg.rx));
+                let dir = Box::new(rnd::RandomDirector::new(s, profile.clone(), cfg.rx, cfg.downgrade));
                 let res = runner::run_scenario(&cfg, dir);
                 events += res.lines.len();
                 for l in &res.lines {
